@@ -37,7 +37,7 @@ use crate::proto::{Ctx, attrs};
 pub fn meta() -> Meta {
     Meta {
         level: "exploration",
-        rule: "bounded exhaustive enumeration. Scalars: every ordered pair of {0,1,-1,2,3,-7,MIN,MIN+1,MAX,MAX-1,+inf,-inf,NaN} (I64) resp. {+-0,+-1,0.5,-7,f64::MAX,MIN_POSITIVE,+-inf,NaN,-NaN,NaN with payload} (F64) x {add,sub,mul,div,partial_cmp,==,hash}. Diagrams, per terminal type and variable order: n=2 value tables over the alphabet {0,1,-1,3,i64::MAX,+inf,NaN} (F64: {0,1,-1,0.5,f64::MAX,+inf,NaN}): add/sub/mul/div/min/max on all ordered pairs of the 91 one-variable tables and on all 2401 x 96 pairs with a 96-table set closed under variable swap, in both operand positions (thorough: all 2401 x 2401 ordered pairs), ite for all 16 0-1-valued conditions x all ordered (then, else) pairs of the 91 one-variable tables and of the 96-set (thorough: 91 x 91 and all 2401 x 96 in both positions), restrict for all 9 literal cubes x all 2401 tables, constant, var, build and eval on all assignments for all 2401 tables; n=1: everything on all 49 tables; n=3 (3 orders): all pairs of a 179-table set (the 133 one-variable tables at each variable, majority/parity/and/or, and 14 rotation triples of tables that depend on all three variables). Histories: every sequence of 2 or 3 pairwise different operators of {add,sub,mul,div,min,max} on the same operand pair, all ordered pairs of a 37-table set (thorough: of a 109-table set = the 96-set plus 13 one-variable tables, which contains the 37-set), apply-cache capacity 1 and 4096; every history starts on a manager that holds only its two operands and an empty apply cache (all handles dropped and gc() between histories, the first failures of a group are re-run on a manager of their own); a failing step is re-run alone and after each single earlier operator (attributes `dependence`, `after`). A diagram case is non-trivial when all operands are non-constant and pairwise distinct (no terminal or equality short-cut at the root; for restrict: non-constant function and non-empty cube); a scalar case is non-trivial when an operand or the expected result is infinite or NaN. Every enumerated case is distinct.",
+        rule: "bounded exhaustive enumeration. Scalars: every ordered pair of {0,1,-1,2,3,-7,MIN,MIN+1,MAX,MAX-1,+inf,-inf,NaN} (I64) resp. {+-0,+-1,0.5,-7,f64::MAX,MIN_POSITIVE,+-inf,NaN,-NaN,NaN with payload} (F64) x {add,sub,mul,div,partial_cmp,==,hash}. Diagrams, per terminal type and variable order: n=2 value tables over the alphabet {0,1,-1,3,i64::MAX,+inf,NaN} (F64: {0,1,-1,0.5,f64::MAX,+inf,NaN}): add/sub/mul/div/min/max on all ordered pairs of the 91 one-variable tables and on all 2401 x 96 pairs with a 96-table set closed under variable swap, in both operand positions (thorough: all 2401 x 2401 ordered pairs), ite for all 16 0-1-valued conditions x all ordered (then, else) pairs of the 91 one-variable tables and of the 96-set (thorough: 91 x 91 and all 2401 x 96 in both positions), restrict for all 9 literal cubes x all 2401 tables, constant, var, build and eval on all assignments for all 2401 tables; n=1: everything on all 49 tables; n=3 (3 orders): all pairs of a 179-table set (the 133 one-variable tables at each variable, majority/parity/and/or, and 14 rotation triples of tables that depend on all three variables). Histories: every sequence of 2 or 3 pairwise different operators of {add,sub,mul,div,min,max} on the same operand pair, all ordered pairs of a 37-table set (thorough: of a 109-table set = the 96-set plus 13 one-variable tables, which contains the 37-set), apply-cache capacity 1 and 4096; every history starts on a manager that holds only its two operands and an empty apply cache (all handles dropped and gc() between histories, the first failures of a group are re-run on a manager of their own); a failing step is re-run alone and after each single earlier operator (attributes `dependence`, `after`). A diagram case is non-trivial when all operands are non-constant and pairwise distinct (no terminal or equality short-cut at the root; for restrict: non-constant function and non-empty cube); a scalar case is non-trivial when an operand or the expected result is infinite or NaN. n=3: build / eval / constant / var / restrict on a 179-table set under all six orders. Every enumerated case is distinct.",
         assumptions: vec![
             "operands are built through DiagramRules::reduce + then_insert + get_terminal, results are read back by the harness's own interpreter over Manager::get_node; eval is compared against the model separately".into(),
             "min/max: a NaN operand value yields NaN (NaN absorption as for the arithmetic operators; this is the only reading under which the library's terminal short-cut `min(NaN-terminal, g) = NaN` is a point-wise operation)".into(),
